@@ -140,3 +140,21 @@ M("C05", "c05_longest_chain_rule", ["saito_core::core::consensus::blockchain::Bl
   "new segment 1..=3 blocks x old segment 0..=3 blocks (thorough: up to 4), every id / burn fee / latest id; answer compared with the u128 reference rule")
 M("C05", "c05_gt_window", ["saito_core::core::consensus::blockchain::is_golden_ticket_count_valid_"],
   "ancestor chains of depth 0..=6 with every golden-ticket flag pattern, current-block flag and bypass symbolic")
+
+# ---- C10, engine M: decoders over symbolic LENGTH and content (one exploration covers every length up to the bound)
+M("C10", "c10_m_tx", ["Transaction::deserialize_from_net", "Slip::deserialize_from_net", "Hop::deserialize_from_net"], "every buffer of length 0..=349 (thorough 0..=546): length, the four count fields and all content symbolic")
+M("C10", "c10_m_slip_hop", ["Slip::deserialize_from_net", "Hop::deserialize_from_net"], "every buffer of length 0..=64 / 0..=140")
+M("C10", "c10_m_handshake", ["<HandshakeResponse as Serialize>::deserialize", "<HandshakeChallenge as Serialize>::deserialize", "<BlockchainRequest as Serialize>::deserialize", "<Version as Serialize>::deserialize"],
+  "every buffer of length 0..=400 (url length field symbolic); String::from_utf8 and the services text parser uninterpreted")
+M("C10", "c10_m_message", ["Message::deserialize", "GhostChainSync::deserialize", "ApiMessage::deserialize", "BlockchainRequest::deserialize", "HandshakeChallenge::deserialize"],
+  "every tag byte, every payload of length 0..=200; tags 2/3/4 delegate to decoders explored separately; tag 9 (text) uninterpreted")
+M("C10", "c10_m_block", ["Block::deserialize_from_net"], "every buffer of length 0..=565 (thorough 0..=725), transaction count and per-transaction counts symbolic; the per-transaction decoder is uninterpreted here (decided by c10_m_tx)")
+
+# ============================================================================== C09
+PROPERTY_ASSUMPTIONS["C09"] = [
+    "engine M over the real encoders/decoders; slices and Vec<u8> are (length, SMT array) pairs, `concat` is array concatenation, to/from_be_bytes are bit-vector extract/concat",
+    "claimed formats: Slip (all fields, all 10 types) and the Transaction count/size header agreement between encoder, validator and decoder; blocks, messages, snapshots and payload contents are outside this revision's claim",
+]
+M("C09", "c09_m_slip_roundtrip", ["Slip::serialize_for_net", "Slip::deserialize_from_net"], "every slip: 33-byte key, amount, block id, tx ordinal, slip index, all 10 slip types symbolic; one query per wire field")
+M("C09", "c09_m_tx_counts_agree", ["Transaction::deserialize_from_net (header section)", "Transaction::serialize_for_net_with_hop (accepted counts: <=255 inputs/outputs)"],
+  "count fields symbolic with inputs, outputs <= 255, message <= 2^20, hops <= 64, buffer length exactly the encoded size; element loops cut at the first iteration")
